@@ -53,33 +53,60 @@ def quantise_rate(fmt, sr):
     return sr
 
 
-def rate_ok(fmt, sr, got):
+def period_ok(u, bits, sr, got):
+    """a sample-period / time-constant field of `bits` bits in units of 1/u s: exactly the documented quantiser -- the period u // sr
+    (truncating) read back as u // period (truncating) -- where the field can hold the period; a period the field cannot hold
+    (0: rate above the unit; 2^bits and more: rate too low) leaves the rate undefined: any positive rate
+    (lean/SfModel/AbsWrite.lean `periodQuant` / `periodOk`)"""
+    p = u // sr
+    if p == 0 or p >= 2 ** bits:
+        return got >= 1
+    return got == u // p
+
+
+def round_f32(n):
+    """an integer rounded to binary32 (24 significant bits, ties to even) -- lean/SfModel/AbsWrite.lean `roundF32`, written out
+    in integer arithmetic (no struct.pack: the clause must not depend on the host's float conversion)"""
+    if n < 2 ** 24:
+        return n
+    e = n.bit_length() - 1 - 23
+    q, r, h = n >> e, n & ((1 << e) - 1), 1 << (e - 1)
+    return (q + 1 if (h < r or (r == h and q % 2 == 1)) else q) << e
+
+
+def rate_ok(fmt, sr, got, ch=None):
+    """lean/SfModel/AbsWrite.lean `rateOk` (ch is None) / `rateOkG` (ch given), line by line: every clause accepts EXACTLY the
+    model's quantiser value"""
     mj = fmt.major
-    if mj in (0x01, 0x13, 0x22, 0x0B, 0x02, 0x03, 0x18, 0x07, 0x05, 0x0E, 0x0C, 0x0D, 0x12, 0x04):   # integer-Hz or wider fields
-        if mj == 0x04:
-            return True        # RAW has no header: the caller supplies the rate
-        return got == sr
-    if mj in (0x06, 0x21):     # SVX, MPC2K: 16-bit field, saturating (KF-RATE16-WRAP repaired)
-        return got == min(sr, 65535)
-    if mj == 0x0A:             # IRCAM: float32 field
-        import struct
-        return got == (int(struct.unpack("<f", struct.pack("<f", float(sr)))[0]) if sr < 2**31 - 64 else 2**31 - 128)   # capped below 2^31 (KF-C10-ircam-rate repaired)
-    if mj in (0x10, 0x11):     # HTK, SDS: sample period
-        # exactly the documented quantiser: the period u // sr (truncating) read back as u // period (truncating) --
-        # lean/SfModel/AbsWrite.lean `periodQuant`, lean/SfModel/Htk.lean / SdsFile.lean `quant`; a period the field cannot
-        # hold (0: rate above the unit; SDS: 21 bits, rates below 477 Hz) leaves the rate undefined: any positive rate
-        u, bits = (10 ** 7, 31) if mj == 0x10 else (10 ** 9, 21)
-        p = u // sr
-        if p == 0 or p >= 2 ** bits:
-            return got >= 1
-        return got == u // p
-    if mj == 0x08:             # VOC: divisor
-        return abs(got - sr) <= max(1, sr * sr // 10**6 + 1) if 4000 <= sr <= 200000 else True   # 1 MHz / (256 - divisor)
+    if mj == 0x04:
+        return True            # RAW has no header: the caller supplies the rate
     if mj in (0x0F, 0x19):     # XI, WVE: fixed
         return True
-    if mj == 0x16:
-        return got == sr
-    return got == sr
+    if mj in (0x06, 0x21):     # SVX, MPC2K: 16-bit field, saturating (KF-RATE16-WRAP repaired)
+        return got == min(sr, 65535)
+    if mj == 0x0A:             # IRCAM: float32 field, capped below 2^31 (KF-C10-ircam-rate repaired) -- `float32Quant`
+        return got == (round_f32(sr) if sr < 2 ** 31 - 64 else 2 ** 31 - 128)
+    if mj in (0x10, 0x11):     # HTK (100 ns, 31 bits), SDS (1 ns, 21 bits): sample period
+        u, bits = (10 ** 7, 31) if mj == 0x10 else (10 ** 9, 21)
+        return period_ok(u, bits, sr, got)
+    if mj == 0x08:             # VOC: the block type decides -- `vocField`
+        # type 1 (PCM_U8 mono): 8-bit time constant 256 - 10^6 // sr; type 8 (PCM_U8 stereo): 16-bit, 65536 - 128 * 10^6 // sr;
+        # type 9 (everything else): the rate itself
+        if ch is None:         # `rateOk`: what one of the three block types answers
+            return got == sr or period_ok(10 ** 6, 8, sr, got) or period_ok(128 * 10 ** 6, 16, sr, got)
+        if fmt.codec != 0x05:
+            return got == sr
+        return period_ok(10 ** 6, 8, sr, got) if ch == 1 else period_ok(128 * 10 ** 6, 16, sr, got)
+    return got == sr           # integer-Hz or wider fields: WAV, WAVEX, RF64, W64, AIFF, AU, CAF, NIST, PAF, PVF, MAT4, MAT5, AVR, ...
+
+
+def rate_ok_old(fmt, sr, got):
+    """the clauses before round 9 where they differed (VOC: first-order tolerance; IRCAM: nothing asked from 2^31 - 64 on)"""
+    if fmt.major == 0x08:
+        return abs(got - sr) <= max(1, sr * sr // 10**6 + 1) if 4000 <= sr <= 200000 else True
+    if fmt.major == 0x0A:
+        return sr >= 2 ** 31 - 64 or got == round_f32(sr)
+    return rate_ok(fmt, sr, got)
 
 
 def lossless_types(fmt):
